@@ -1,11 +1,11 @@
 SPECIFICATION Spec
 CONSTANTS MaxLen = 3
-  Pool <- Pool3
-  Starts <- StartsB
+  Pool <- PoolA7
+  Starts <- StartsA
   Xs = {2}
-  Nested = TRUE
+  Nested = FALSE
   Ys <- NoData
-  Extra <- NoElems
+  Extra <- ExtraA
   Variant = "doc"
   CopyVarContext = TRUE
   ExtendByCompose = TRUE
@@ -21,4 +21,5 @@ INVARIANT CarriesAttributes
 INVARIANT FrameVariableOnly
 INVARIANT VarUnchanged
 INVARIANT Repeatable
+INVARIANT Emitted
 CHECK_DEADLOCK FALSE
